@@ -102,6 +102,17 @@ func c02Body(np int, vararg bool, body int) []Stat {
 		st = append(st, Emit(ps...), Return(Num(71), Num(72), Num(73)))
 	case 4: // returns nothing
 		st = append(st, Emit(ps...))
+	case 6: // live non-nil locals sit in the registers right after the returned ones; no call resets the frame top
+		var rs []Expr
+		for i := 0; i < np; i++ {
+			rs = append(rs, Name(fmt.Sprintf("p%d", i+1)))
+		}
+		if np == 0 {
+			// returns its first local only; the second stays behind it
+			st = append(st, Local(names("k1", "k2", "k3"), Str("leak1"), Str("leak2"), Str("leak3")), Return(Name("k1")))
+		} else {
+			st = append(st, Local(names("k1", "k2"), Str("leak1"), Str("leak2")), Return(rs...))
+		}
 	case 5: // {...} and select with negative index
 		st = append(st, Emit(ps...), Local1("tt", TableE(Pos1(Vararg()))), Return(Index(Name("tt"), Num(1)), CallN("select", Str("#"), Vararg())))
 	}
@@ -223,8 +234,11 @@ func genCall(thorough bool) Gen {
 		// K1: Lua closures of every shape
 		for np := 0; np <= 3; np++ {
 			for _, va := range []bool{false, true} {
-				for body := 0; body <= 5; body++ {
+				for body := 0; body <= 6; body++ {
 					if !va && (body == 1 || body == 2 || body == 5) {
+						continue
+					}
+					if va && body == 6 {
 						continue
 					}
 					np, va, body := np, va, body
@@ -232,7 +246,7 @@ func genCall(thorough bool) Gen {
 					def := func() []Stat { return []Stat{LocalFunc("callee", Func(params(np), va, c02Body(np, va, body)...))} }
 					call := func(a []Expr) Expr { return CallN("callee", a...) }
 					avs, cs := argvs, ctxs
-					if !thorough && body >= 3 {
+					if !thorough && body >= 3 && body != 6 {
 						cs = []ctx{ctxs[0], ctxs[2], ctxs[3], ctxs[7], ctxs[10], ctxs[14]}
 					}
 					emitAll("F-call", name, def, call, avs, cs)
